@@ -62,6 +62,10 @@ type Program struct {
 	PileUp bool
 	// CloserStream: the Stream also has Close/Flush/Sync methods that fail (sinks often do)
 	CloserStream bool
+	// Wrap: the three sequence numbers straddle the 2^32 roll-over (A = 1, B = 2^32-2, C = 0): B is the OLDEST
+	Wrap bool
+	// PanicOnce: the first Stream callback panics; the caller of the API recovers and goes on using the object
+	PanicOnce bool
 }
 
 func (p Program) String() string {
@@ -79,6 +83,12 @@ func (p Program) String() string {
 	}
 	if p.CloserStream {
 		x += " stream-with-failing-Close"
+	}
+	if p.Wrap {
+		x += " sequences-straddle-2^32"
+	}
+	if p.PanicOnce {
+		x += " first-callback-panics(recovered)"
 	}
 	return fmt.Sprintf("maxInFlight=%d stream=%d timeout=%d%s threads=[%s]", p.MaxInFlight, p.Stream, p.Timeout, x, strings.Join(ts, " | "))
 }
@@ -110,6 +120,8 @@ type harness struct {
 	calls     []*callRec
 	log       []string
 	reentered bool
+	panicked  bool
+	recovered int // stamp at which the caller recovered from the sink's panic (0: not yet)
 	viol      []explore.Finding
 	free      bool // free-running (race pass): no scheduler
 }
@@ -133,6 +145,11 @@ func tid() int {
 func (h *harness) ReassemblyComplete(msgs []*auparse.AuditMessage) {
 	sched.Yield("cb-complete")
 	h.mu.Lock()
+	if h.p.PanicOnce && !h.panicked {
+		h.panicked = true
+		h.mu.Unlock()
+		panic("sink failed once")
+	}
 	if len(msgs) == 0 {
 		h.fail("empty-callback", "ReassemblyComplete with no messages")
 		h.mu.Unlock()
@@ -202,6 +219,16 @@ func (h *harness) push(seq uint32, typ uint16, nested bool) {
 }
 
 func (h *harness) pushTs(seq uint32, typ uint16, nested bool, ts time.Time) {
+	if h.p.Wrap {
+		switch seq {
+		case seqA:
+			seq = 1
+		case seqB:
+			seq = 1<<32 - 2
+		case seqC:
+			seq = 0
+		}
+	}
 	m := &auparse.AuditMessage{RecordType: auparse.AuditMessageType(typ), Sequence: seq, Timestamp: ts}
 	if !nested {
 		sched.Yield("call-push")
@@ -212,10 +239,29 @@ func (h *harness) pushTs(seq uint32, typ uint16, nested bool, ts time.Time) {
 	h.msgs = append(h.msgs, p)
 	h.byPtr[m] = p
 	h.mu.Unlock()
-	h.r.PushMessage(m)
+	h.guard(func() { h.r.PushMessage(m) })
 	h.mu.Lock()
 	p.ret = h.stamp()
 	h.mu.Unlock()
+}
+
+// guard runs an API call; with PanicOnce the caller recovers from the sink's panic and carries on.
+func (h *harness) guard(f func()) {
+	if !h.p.PanicOnce {
+		f()
+		return
+	}
+	defer func() {
+		if r := recover(); r != nil {
+			if r != "sink failed once" {
+				panic(r)
+			}
+			h.mu.Lock()
+			h.recovered = h.stamp()
+			h.mu.Unlock()
+		}
+	}()
+	f()
 }
 
 // pushRaw hands the Reassembler BYTES, then overwrites them: Push documents that it copies.
@@ -277,11 +323,13 @@ func (h *harness) doT(ti int, op int, nested bool) {
 		h.calls = append(h.calls, c)
 		h.mu.Unlock()
 		var err error
-		if op == oMaintain {
-			err = h.r.Maintain()
-		} else {
-			err = h.r.Close()
-		}
+		h.guard(func() {
+			if op == oMaintain {
+				err = h.r.Maintain()
+			} else {
+				err = h.r.Close()
+			}
+		})
 		h.mu.Lock()
 		c.err = err
 		c.ret = h.stamp()
@@ -374,6 +422,9 @@ func (h *harness) Finish(res *sched.Result) (string, []explore.Finding) {
 	for _, p := range h.msgs {
 		if p.eoe {
 			continue
+		}
+		if h.p.PanicOnce && (h.recovered == 0 || p.invoke < h.recovered) {
+			continue // whatever was in flight when the sink panicked is the sink's loss; what is pushed afterwards is not
 		}
 		if p.ret < closeInvoked && p.delivered != 1 {
 			desc := "pushed as bytes " + p.tag
@@ -483,6 +534,20 @@ func programs(tier string) []Program {
 		}
 		out = append(out, Program{Threads: ths, MaxInFlight: mk[0], PileUp: true})
 		out = append(out, Program{Threads: append(append([][]int{}, ths[:mk[1]-1]...), []int{oMaintain, oClose}), MaxInFlight: mk[0], PileUp: true})
+	}
+	// the same two-thread programs with sequence numbers that straddle the 2^32 roll-over
+	for _, m := range []int{1, 2} {
+		for i := 0; i < len(tp); i++ {
+			for j := i; j < len(tp); j++ {
+				out = append(out, Program{Threads: [][]int{tp[i], tp[j]}, MaxInFlight: m, Stream: 0, Wrap: true})
+			}
+		}
+	}
+	// a Stream whose first callback panics (the caller recovers): what is pushed afterwards is delivered as usual
+	for _, ths := range [][][]int{{{oPushAfin, oPushAmid, oPushAfin}}, {{oPushAfin, oPushBmid, oPushAmid, oPushAeoe, oMaintain}}, {{oPushAfin, oPushAmid}, {oPushBmid, oMaintain}}, {{oPushAfin}, {oPushAmid, oPushAfin}}, {{oPushAfin, oPushAfin}, {oPushBmid}}} {
+		for _, m := range []int{0, 2} {
+			out = append(out, Program{Threads: ths, MaxInFlight: m, PanicOnce: true})
+		}
 	}
 	// Close racing with Close / Push / Maintain on a Stream that also has (failing) Close/Flush/Sync methods
 	for _, ths := range [][][]int{{{oClose}, {oClose}}, {{oPushAmid, oClose}, {oClose}}, {{oPushAmid}, {oMaintain, oClose}}, {{oClose, oClose}, {oPushAfin}}, {{oClose}, {oClose}, {oClose}}} {
